@@ -75,7 +75,7 @@ fn summ_float<T: F>(case: &Value, out: &mut Vec<Value>) {
     let mut o = case.as_object().unwrap().clone();
     o.insert("ev".into(), json!("summ"));
     o.insert("ty".into(), json!(T::NAME));
-    let ddof = T::f(d2 as f64 / 2.0);
+    let ddof = if case.get("dnan").and_then(|x| x.as_bool()).unwrap_or(false) { T::nan() } else { T::f(d2 as f64 / 2.0) };
     let q = |x: T, sub: f64| quant(x.g() - sub, qe);
     let (outc, res): (String, Value) = match stat {
         "mean" => res_json(guarded(|| SummaryStatisticsExt::mean(&av)), |v| q(unscale(v, 1), base)),
@@ -216,6 +216,38 @@ fn corr_ev<T: F>(case: &Value, out: &mut Vec<Value>) {
     for x in m3.row_mut(k).iter_mut() { *x = T::f(-x.g()); }
     let (_, pv3) = mat(guarded(|| m3.pearson_correlation()));
     o.insert("pear_neg".into(), pv3);
+    out.push(Value::Object(o));
+}
+
+/// Covariance of variables of wildly different scales (non-dyadic data): entry (i, i) of the full matrix against the
+/// covariance of variable i alone, and the unit diagonal of the correlation - one variable must not influence another's.
+fn corrpair_ev<T: F>(case: &Value, out: &mut Vec<Value>) {
+    let rows: Vec<Vec<i64>> = case["rows"].as_array().unwrap().iter().map(jints).collect();
+    let rowexp = jints(&case["rowexp"]);
+    let s = jint(case, "S") as f64;
+    let (nv, no) = (rows.len(), rows[0].len());
+    let flat: Vec<T> = rows.iter().enumerate().flat_map(|(i, r)| { let sc = pow2(rowexp[i] as i32); r.iter().map(move |&v| T::f((1.0 + v as f64 / s) * sc)).collect::<Vec<T>>() }).collect();
+    let m = Array2::from_shape_vec((nv, no), flat).unwrap();
+    let d = T::f(jint(case, "d") as f64 / 2.0);
+    let relq = |a: f64, b: f64| -> i64 { if a.is_nan() && b.is_nan() { 0 } else if a.is_nan() || b.is_nan() { NAN_Q } else if a == b { 0 } else { let x = (a - b) / b.abs().max(f64::MIN_POSITIVE) * 1048576.0; if x.abs() > CAP { BIG_Q } else { x.round() as i64 } } };
+    let mut o = case.as_object().unwrap().clone();
+    o.insert("ev".into(), json!("corrpair"));
+    o.insert("ty".into(), json!(T::NAME));
+    let full = guarded(|| m.cov(d));
+    let pear = guarded(|| m.pearson_correlation());
+    let mut rel: Vec<i64> = Vec::new();
+    let mut diag: Vec<i64> = Vec::new();
+    let mut ok = full.is_ok() && pear.is_ok();
+    if let (Ok(Ok(c)), Ok(Ok(p))) = (&full, &pear) {
+        for i in 0..nv {
+            let alone = guarded(|| m.slice(ndarray::s![i..i + 1, ..]).to_owned().cov(d));
+            match alone { Ok(Ok(c1)) => rel.push(relq(c[[i, i]].g(), c1[[0, 0]].g())), _ => { ok = false; rel.push(ERR_Q); } }
+            diag.push(relq(p[[i, i]].g(), 1.0));
+        }
+    } else { ok = false; }
+    o.insert("out".into(), json!(if ok { "ok" } else { "failed" }));
+    o.insert("rel".into(), json!(rel));
+    o.insert("diag".into(), json!(diag));
     out.push(Value::Object(o));
 }
 
@@ -410,6 +442,7 @@ pub fn run(case: &Value, _params: &Params, out: &mut Vec<Value>) {
     match ev {
         "summ" => match ty { "f32" => summ_float::<f32>(case, out), "f64" => summ_float::<f64>(case, out), _ => summ_int(case, out) },
         "corr" => match ty { "f32" => corr_ev::<f32>(case, out), _ => corr_ev::<f64>(case, out) },
+        "corrpair" => match ty { "f32" => corrpair_ev::<f32>(case, out), _ => corrpair_ev::<f64>(case, out) },
         "dev" => dev_ev(case, out),
         "ent" => match ty { "f32" => ent_ev::<f32>(case, out), _ => ent_ev::<f64>(case, out) },
         _ => panic!("unknown num event {ev}"),
@@ -525,18 +558,22 @@ pub fn gen(seed: u64, count: usize, tier: &str, params: &Params) -> Vec<Value> {
                                                        2 => vec![0; wl], _ => (0..wl).map(|_| rng.range(0, 5)).collect() };
                 let ty = *rng.pick(&["f64", "f64", "f32"]);
                 // sometimes an infinite or NaN observation (under a zero weight as often as not)
+                // ddof = NaN is accepted by the documented test "less than zero or greater than one" in both forms
+                let dnan = rng.chance(1, 10);
                 let specials: Vec<Value> = if rng.chance(1, 3) { (0..rng.range(1, 2)).map(|_| json!([rng.below(n as u64), rng.range(1, 3)])).collect() } else { vec![] };
                 cases.push(json!({"ev": "summ", "stat": *rng.pick(&["wsum_axis", "wmean_axis", "wvar_axis", "wstd_axis", "wstd_axis"]), "ty": ty, "r": r, "w": w, "S": 4, "specials": specials,
-                                  "WS": *rng.pick(&[1i64, 4, 4, 16]), "d": rng.range(0, 2), "wexp": 0, "bexp": -1, "qe": 4, "tol": 2, "shape": shape, "axis": axis, "pair_only": true,
+                                  "WS": *rng.pick(&[1i64, 4, 4, 16]), "d": rng.range(0, 2), "dnan": dnan, "wexp": 0, "bexp": -1, "qe": 4, "tol": 2, "shape": shape, "axis": axis, "pair_only": true,
                                   "lay1": lay1, "lay2": lay2, "wlay": *rng.pick(&["plain", "rev", "step"])}));
             }
             "axpair" => {
                 // per-axis forms against the whole-array routine per lane on NON-dyadic data (v/3, v/10, v/7) whose lanes sit at very
                 // different magnitudes, >= 2 lanes, any layout: only the agreement of the two routines is judged
                 let nd = rng.range(2, 4) as usize;
-                let shape: Vec<usize> = (0..nd).map(|_| rng.range(2, if nd == 4 { 3 } else { 4 }) as usize).collect();
-                let n: usize = shape.iter().product();
+                let mut shape: Vec<usize> = (0..nd).map(|_| rng.range(2, if nd == 4 { 3 } else { 4 }) as usize).collect();
                 let axis = rng.below(nd as u64) as usize;
+                // sometimes lanes of 8..20 elements (beyond the width of unrolled reductions)
+                if nd == 2 && rng.chance(1, 3) { shape[axis] = rng.range(8, 20) as usize; }
+                let n: usize = shape.iter().product();
                 let (lay1, lay2) = two_lays(&mut rng, &shape);
                 let offs = [0i64, 1000, 1_000_000, 500_000_000];
                 // the offset depends on the position along the OTHER axes (so lanes differ in magnitude)
@@ -572,6 +609,15 @@ pub fn gen(seed: u64, count: usize, tier: &str, params: &Params) -> Vec<Value> {
                 let ty = *rng.pick(&["f64", "f32"]);
                 cases.push(json!({"ev": "summ", "stat": "moments", "ty": ty, "r": r, "w": [], "S": 1, "WS": 1, "p": rng.range(0, 4), "bexp": -1,
                                   "sexp": if ty == "f32" { 126 } else { 1022 }, "qe": 2, "tol": 2, "shape": shape, "axis": 0, "lay1": lay1, "lay2": lay2}));
+            }
+            "corr" if rng.chance(1, 8) => {
+                let nv = rng.range(2, 4) as usize;
+                let no = rng.range(3, 12) as usize;
+                let rows: Vec<Vec<i64>> = (0..nv).map(|_| { let mut r: Vec<i64> = (0..no).map(|_| rng.range(-9, 9)).collect(); if r.iter().all(|&v| v == r[0]) { r[0] += 1; } r }).collect();
+                let ty = *rng.pick(&["f64", "f64", "f32"]);
+                let big = if ty == "f32" { 22 } else { 50 };
+                let rowexp: Vec<i64> = (0..nv).map(|_| *rng.pick(&[0i64, 0, big, -big])).collect();
+                cases.push(json!({"ev": "corrpair", "ty": ty, "rows": rows, "rowexp": rowexp, "S": *rng.pick(&[3i64, 7, 10]), "d": rng.range(0, 2)}));
             }
             "corr" if rng.chance(1, 5) => {
                 // many observations (block boundaries 8, 16, 32, 64 and their neighbours): covariance against the definition,
